@@ -28,6 +28,8 @@ RULE = (
     "colour temperature 7.600 / 9.x), Cover(position, angle, up/down with invert flags, travel completed on a patched clock), Fan(percent, steps, switch, oscillation), "
     "Climate(target temperature direct, setpoint shift 6.010 / 9.002 with steps, target temperature through a setpoint shift, on/off invert, fan speed), "
     "ClimateMode(operation / controller modes via DPT 20.x and binary objects), NumericValue(curated DPTs), Scene, RawValue, Notification; 1..3 successive calls per case; "
+    "for half of the cases xknx.group_address_dpt holds the natural DPT of every group address of the device (5.001 scaling, 1.001 switch, 9.001 temperature, 5.010 counter, ...) "
+    "and every looped-back telegram passes the queue's eager decode step (set_decoded_data) before the devices process it; "
     "non-trivial = a call whose value is not the type's zero/False/first enum member and that produced at least one telegram; distinct by (adapter, configuration, calls)"
 )
 LEVEL_TEXT = (
@@ -107,6 +109,11 @@ def _calls(setter_values, n_max=3):
 
 def _case(dev, cfg, calls):
     return st.fixed_dictionaries({"dev": st.just(dev), "cfg": cfg, "calls": calls})
+
+
+def _with_table(case_strategy):
+    """Configuration dimension: is eager decoding configured for the device's group addresses?"""
+    return st.tuples(case_strategy, st.booleans()).map(lambda ct: {**ct[0], "ga_dpt": ct[1]})
 
 
 def _onoff(names=("on", "off")):
@@ -330,6 +337,7 @@ def drain(xknx) -> int:
             continue
         if t.direction is not TelegramDirection.OUTGOING:
             raise V("direction", f"queued telegram {t} is not OUTGOING")
+        xknx.group_address_dpt.set_decoded_data(t)  # the eager decode step of the telegram queue consumer
         xknx.devices.process(t)
         n += 1
     return n
@@ -339,7 +347,42 @@ def incoming(xknx, ga: str, payload) -> None:
     from xknx.telegram import GroupAddress, Telegram, TelegramDirection
     from xknx.telegram.apci import GroupValueWrite
 
-    xknx.devices.process(Telegram(destination_address=GroupAddress(ga), payload=GroupValueWrite(payload), direction=TelegramDirection.INCOMING))
+    t = Telegram(destination_address=GroupAddress(ga), payload=GroupValueWrite(payload), direction=TelegramDirection.INCOMING)
+    xknx.group_address_dpt.set_decoded_data(t)
+    xknx.devices.process(t)
+
+
+# datapoint types an ETS project would declare for the group addresses of remote values without a dpt_class
+NATURAL_DPT = {
+    "RemoteValueSwitch": (1, 1),
+    "RemoteValueUpDown": (1, 8),
+    "RemoteValueStep": (1, 7),
+    "RemoteValueScaling": (5, 1),
+    "RemoteValueColorRGBW": (251, 600),
+    "RemoteValueBinaryOperationMode": (1, 1),
+    "RemoteValueBinaryHeatCool": (1, 100),
+}
+
+
+def natural_table(d) -> dict:
+    """group address -> DPT as a project import (xknxproject style mapping) would configure it."""
+    from xknx.dpt import DPTTemperature, DPTValue1Count
+
+    table: dict = {}
+    for rv in d._iter_remote_values():  # noqa: SLF001
+        cls_name = type(rv).__name__
+        if rv.dpt_class is not None:
+            num = (rv.dpt_class.dpt_main_number, rv.dpt_class.dpt_sub_number)
+        elif cls_name == "RemoteValueSetpointShift":
+            internal = rv._internal_dpt_class  # noqa: SLF001
+            num = (6, 10) if internal is DPTValue1Count else ((9, 2) if internal is DPTTemperature else None)
+        else:
+            num = NATURAL_DPT.get(cls_name)
+        if num is None or num[0] is None:
+            continue
+        for ga in rv.group_addresses():
+            table[str(ga)] = {"main": num[0], "sub": num[1]}
+    return table
 
 
 def expect(cond: bool, relation: str, detail: str) -> None:
@@ -543,6 +586,11 @@ def oracle(ctx, case) -> None:
         xknx = XKNX()
         d = build(xknx, dev, cfg)
         xknx.devices.async_add(d)
+        if case.get("ga_dpt"):
+            # eager decoding configured for every group address of the device, as after a project import
+            table = natural_table(d)
+            xknx.group_address_dpt.set(table)
+            res["table"] = len(table)
         try:
             if dev == "climate_target_via_shift":
                 # initial state from the bus: current target temperature and setpoint shift
@@ -581,11 +629,12 @@ def oracle(ctx, case) -> None:
         loop.close()
         tcmod.time = saved
     cls = [dev] + [f"{dev}:{k}={v}" for k, v in sorted(cfg.items()) if isinstance(v, (bool, str))]
+    cls.append("group-address-dpt-table" if res.get("table") else "no-group-address-dpt-table")
     ctx.case(repr(case), nontrivial=res["nontrivial"], cls=cls, sample=case if res["nontrivial"] and len(case["calls"]) > 1 else None)
 
 
 def _shard(ctx, n: int) -> None:
-    hyp_search(ctx, CASES, oracle, n)
+    hyp_search(ctx, _with_table(CASES), oracle, n)
 
 
 def selftest(ctx) -> None:
